@@ -67,6 +67,11 @@ CHECKS = {
         technique="runtime reference-model monitor: literals rendered from chosen instants per documented pattern; instants recovered from replies and compared with an independent proleptic-Gregorian integer-nanosecond calendar",
         text="Instants over years 0001-9999 rendered into every documented literal form (with optional seconds, 1-9 fractional digits, fixed offsets) x whole-nanosecond durations from 1 ns to ~9500 years written in 16 time units with both signs: the literal's instant, (d+t)-d = t, (d-t)+t = d, d1-d2, fixed-offset and named-zone conversions keeping the instant, and refusal of offsets of 24 h or more.",
         note="Clock pinned; named zones only as conversion targets and only for instants from 1972 on; ISO-week and year-less patterns are not generated; the sandbox's local zone is UTC."),
+    "C16": dict(
+        category="exploration", design_ref="DESIGN.md §2 C16",
+        technique="runtime reference-model monitor: substance property queries of the real evaluator vs exact arithmetic over the dumped property table; displayed parts re-read with the C05/C06 reader",
+        text="Exhaustive over all substances with unit amount and all their properties: by-name lookup under dimensionless multiples (k S, S*k, S/k), output of an amount given in the input's dimensionality, the inverse query, refusal (conformance error) of amounts of another dimensionality, scaling of every property in replies to k S; chemical formulas over the element symbols with counts up to 2^32-1 against the exact count-weighted sum, and near-miss strings that must not be treated as formulas.",
+        note="Ambiguously named properties are skipped as the statement allows; substances shadowed by unit names (C07 rule) and derived substances with their own amount (lusec) are skipped."),
 }
 
 PENDING = {}
